@@ -83,6 +83,18 @@ type c6rFnB struct {
 	F scen.I2 `func:"Comp,returns=B"`
 }
 
+// c6Peer is a holder that is itself a provider of the types its own points accept: other
+// instances of the holder's type must be injected, the holder itself never.
+type c6Peer struct {
+	scen.Nm
+	Peers   []scen.I1 `wire:",required=false"`
+	Sibs    []*c6Peer `wire:",required=false"`
+	Next    *c6Peer   `wire:",required=false"`
+	Partner scen.I1   `wire:",required=false"`
+}
+
+func (*c6Peer) M1() {}
+
 var c6Kinds = []string{"PA", "F1", "F2", "F12", "SPA", "S1", "S2", "FnP", "Fn1", "FnA", "FnAB", "FnS", "FnB"}
 
 func c6Pred(kind string) func(t string) bool {
@@ -120,6 +132,7 @@ type c06Case struct {
 	Mode    int         `json:"mode,omitempty"`
 	Bound   int         `json:"bound,omitempty"`
 	Choices []int       `json:"choices,omitempty"`
+	Peers   []string    `json:"peer_names,omitempty"` // family "peers": names of the c6Peer holders ("" = default name)
 }
 
 func c06Pops(variants [][]string, yield func([]scen.Inst) bool) {
@@ -173,6 +186,16 @@ func c06Gen(c *core.Ctx) func(yield func(c06Case) bool) {
 		})
 		if !ok {
 			return
+		}
+		// holders that are providers of their own points' types
+		for _, peers := range [][]string{{"p0"}, {""}, {"p0", "p1"}, {"", "p1"}, {"p0", "p1", "p2"}, {"p0", "", "p2"}} {
+			for _, others := range [][]scen.Inst{nil, {{Typ: "TA", Name: "tan"}}, {{Typ: "TB"}}, {{Typ: "TA"}, {Typ: "TB", Name: "tbn"}, {Typ: "TC"}}} {
+				for _, desc := range []bool{false, true} {
+					if ok = yield(c06Case{Pop: others, Peers: peers, Desc: desc}); !ok {
+						return
+					}
+				}
+			}
 		}
 		// every single non-default iteration-order answer, small populations, all-optional consumer
 		bound := 1
@@ -254,9 +277,21 @@ func c06Run(c *core.Ctx) {
 				all = append(all, id)
 				user[in.RegName()] = true
 			}
+			var peers []*c6Peer
+			for i, pn := range cs.Peers {
+				pp := &c6Peer{Nm: scen.Nm{Id: fmt.Sprintf("peer#%d", i), Name: pn}}
+				peers = append(peers, pp)
+				comps = append(comps, pp)
+				if pn == "" {
+					user["verif/props/c6Peer"] = true
+				} else {
+					user[pn] = true
+				}
+			}
 			var call *c6All
 			var get func() any
-			if cs.Kind == "" {
+			if len(cs.Peers) > 0 {
+			} else if cs.Kind == "" {
 				call = &c6All{}
 				comps = append(comps, call)
 				user["verif/props/c6All"] = true
@@ -326,6 +361,31 @@ func c06Run(c *core.Ctx) {
 					return false
 				}
 				return true
+			}
+			if len(cs.Peers) > 0 {
+				if o.Err != nil {
+					c.Outcome("peers/error")
+					c.Report(key("peers-error"), "spurious-error", "all points are optional but start-up failed: "+scen.FirstLine(o.Err), cc)
+					return
+				}
+				c.Outcome(fmt.Sprintf("peers/ok/%d", len(peers)))
+				i1 := adm("F1")
+				for _, h := range peers {
+					var otherPeers, wantI1 []string
+					for _, q := range peers {
+						if q != h {
+							otherPeers = append(otherPeers, q.Id)
+						}
+					}
+					wantI1 = append(append(wantI1, i1...), otherPeers...)
+					sort.Strings(wantI1)
+					sort.Strings(otherPeers)
+					if !(slice(h.Id+".Peers", scen.IdsOf(h.Peers), wantI1) && slice(h.Id+".Sibs", scen.IdsOf(h.Sibs), otherPeers) &&
+						single(h.Id+".Next", h.Next, otherPeers) && single(h.Id+".Partner", h.Partner, wantI1)) {
+						return
+					}
+				}
+				return
 			}
 			if cs.Kind != "" {
 				want := adm(cs.Kind)
